@@ -1014,7 +1014,15 @@ class SPSetter(FSContract):
         newsp = z3.Const("sp_assigned", SPv)
         ex.assume(z3.And(newsp != NONEV, CALC(NONEV) != CALC(newsp)))
         ex.assume(z3.And(ctx.fs0.ent[JD.mk(proj.p, job.me)][Name.SPBAK] == Node.Absent))
-        return [job, SSP(newsp)], {}, {"job": job, "proj": proj, "p": proj.p, "me": job.me, "newsp": newsp}
+        sib = None
+        if job.fields["_statepoint_requires_init"] is False:
+            # a shallow copy of the handle (copy.copy): same attributes, the state point object is shared and lists both handles
+            sib = Obj(job.cls)
+            sib.tag = "sib"
+            sib.fields.update(job.fields)
+            sib.fields["_cwd"] = job.fields["_cwd"]
+            job.fields["_statepoint"].fields["_jobs"] = [job, sib]
+        return [job, SSP(newsp)], {}, {"job": job, "proj": proj, "p": proj.p, "me": job.me, "newsp": newsp, "sib": sib}
 
     def post(self, interp, case, pre, outcome):
         from signac.errors import DestinationExistsError
@@ -1025,6 +1033,12 @@ class SPSetter(FSContract):
         if outcome[0] == "return":
             jid = job.fields["_id"]
             ex.oblige(self.oname("ensures:handle_has_the_id_of_the_new_state_point"), jid.e == CALC(newsp) if isinstance(jid, SId) else z3.BoolVal(False))
+            sib = pre["sib"]
+            if sib is not None:
+                sid = sib.fields["_id"]
+                ex.oblige(self.oname("ensures:every_shallow_copy_of_the_handle_follows_(same_id,_shared_state_point_object,_lazy_fields_reset)"),
+                          z3.And(sid.e == CALC(newsp) if isinstance(sid, SId) else z3.BoolVal(False), z3.BoolVal(sib.fields.get("_statepoint") is job.fields.get("_statepoint")),
+                                 *[c for _, c in inv_job_follow(ctx, sib, CALC(newsp))]))
             c = proj.fields["_sp_cache"]
             ex.oblige(self.oname("ensures:new_state_point_registered_under_its_own_id"), z3.And(c.dom[CALC(newsp)], c.val[CALC(newsp)] == newsp))
             sd = job.fields.get("_statepoint")
@@ -1255,7 +1269,7 @@ class JobDocGetter(FSContract):
 
 class JobDocSetter(FSContract):
     target = f"{JOB}.Job.document.setter"
-    properties = ("C05",)
+    properties = ("C05", "C10")
     inline = GETTERS + (f"{JOB}.Job.document",)
     callees = {f"{JOB}.Job.init": stub_job_init}
     faults = False
@@ -1322,7 +1336,7 @@ class ProjDocGetter(FSContract):
 
 class ProjDocSetter(FSContract):
     target = f"{PRJ}.Project.document.setter"
-    properties = ("C05",)
+    properties = ("C05", "C10")
     inline = GETTERS + (f"{PRJ}.Project.document",)
     faults = False
 
@@ -1486,8 +1500,9 @@ class ClearCtx(JobCtx):
 
 class JobClear(FSContract):
     target = f"{JOB}.Job.clear"
-    properties = ("C03", "C10", "C11")
+    properties = ("C03", "C05", "C10", "C11")
     ctx_class = ClearCtx
+    inline = GETTERS + (f"{JOB}.Job.isfile",)
     shard_bits = 2
 
     def make_ctx(self, case):
